@@ -413,3 +413,21 @@ Definition vscg_outcome (units : list Z) (t : terms) (a : Z * Z * Z * dval) : li
           [0; dig ([key'; ver'] ++ c_dval d'); if list_eqb ([key'; ver'] ++ c_dval d') ([key; ver] ++ c_dval d) then 1 else 0; len t' - len t]
       end
   end.
+
+(* ---- Stage 3 (3): linked layers (Psd/Linked.v) *)
+From PsdV Require Import Psd.Linked.
+Definition c_linked (l : linked) : list Z :=
+  [ll_kind l; ll_version l] ++ c_bytes (ll_uuid l) ++ c_list c_z (ll_filename l) ++ [ll_filetype l; ll_creator l] ++
+  c_opt c_z (ll_filesize l) ++ c_opt c_dblock (ll_open l) ++ c_opt c_dblock (ll_linked l) ++
+  c_opt (c_list c_z) (ll_timestamp l) ++ c_opt c_bytes (ll_data l) ++ c_opt (c_list c_z) (ll_child l) ++
+  c_opt c_z (ll_mod l) ++ c_opt c_z (ll_lock l).
+Definition linked_outcome (units : list Z) (t : terms) (l : list linked) : list Z :=
+  match write_linked_layers enc t l with
+  | Err e => [err_code e]
+  | Ok (b, n) =>
+      [0; n; dig b] ++
+      match read_linked_layers dec (S (length b)) units t b with
+      | Err e => [err_code e]
+      | Ok (l', t') => [0; dig (c_list c_linked l'); if list_eqb (c_list c_linked l') (c_list c_linked l) then 1 else 0; len t' - len t]
+      end ++ [if forallb (wf_linked enc dec units) l then 1 else 0]
+  end.
